@@ -255,12 +255,14 @@ def parseFloats : List Str → Except Err (List α)
     let vs ← parseFloats r
     pure (v :: vs)
 
-/-- one `+key=value` item of `projString` (the body of the loop) -/
-def projItem (sr : SR α) (seg : Str) : Except Err (SR α) :=
+/-- key (lower-cased) and value text of one `+key=value` item (`true` when there is no `=`) -/
+def itemKV (seg : Str) : Str × Str :=
   let a := trimSpace seg
   let split := splitOn '=' a ++ [s "true"]
-  let name := toLower (split.headD [])
-  let val := (split.drop 1).headD []
+  (toLower (split.headD []), (split.drop 1).headD [])
+
+/-- the `switch paramName` of the loop body: one key with its value text -/
+def projKV (sr : SR α) (name val : Str) : Except Err (SR α) :=
   let num (f : α → SR α) : Except Err (SR α) := do let v ← parseFloat val; pure (f v)
   let ang (f : α → SR α) : Except Err (SR α) := do let v ← parseFloat val; pure (f (mul v deg2rad))
   if name = s "proj" then .ok { sr with name := val }
@@ -302,13 +304,29 @@ def projItem (sr : SR α) (seg : Str) : Except Err (SR α) :=
     if legalAxis val then .ok { sr with axis := val } else .ok sr
   else .error (.error "invalid field")
 
+/-- one `+key=value` item of `projString` (the body of the loop) -/
+def projItem (sr : SR α) (seg : Str) : Except Err (SR α) := projKV sr (itemKV seg).1 (itemKV seg).2
+
 def foldItems (sr : SR α) : List Str → Except Err (SR α)
   | [] => .ok sr
   | x :: r => do let sr' ← projItem sr x; foldItems sr' r
 
+/-- the statement after the loop: every datum code except the literal `WGS84` is lower-cased -/
+def lowerDatum (sr : SR α) : SR α :=
+  if sr.datumCode ≠ s "WGS84" then { sr with datumCode := toLower sr.datumCode } else sr
+
 def projString (def_ : Str) : Except Err (SR α) := do
   let sr ← foldItems newSR ((splitOn '+' def_).drop 1)
-  pure (if sr.datumCode ≠ s "WGS84" then { sr with datumCode := toLower sr.datumCode } else sr)
+  pure (lowerDatum sr)
+
+/-- TOKEN level: the loop over (key, value text) pairs instead of over the text between `+` signs -/
+def foldKVs (sr : SR α) : List (Str × Str) → Except Err (SR α)
+  | [] => .ok sr
+  | (k, v) :: r => do let sr' ← projKV sr k v; foldKVs sr' r
+
+def parseProj4Toks (kvs : List (Str × Str)) : Except Err (SR α) := do
+  let sr ← foldKVs newSR kvs
+  pure (lowerDatum sr)
 
 
 /-! ## datum.go: getDatum (it aliases and rewrites `DatumParams` in place) -/
@@ -369,39 +387,52 @@ def ra6Q : Rat := 2215608465608465608 / 100000000000000000000
 
 def ofRat0 (q : Rat) (dflt : α) : α := if q = 0 then dflt else ofRat q
 
-/-- everything of `DeriveConstants` before the datum object is attached -/
-def deriveCore (sr : SR α) : SR α :=
-  let sr : SR α :=
-    if sr.datumCode ≠ [] && sr.datumCode ≠ s "none" then
-      match List.lookup (String.ofList sr.datumCode) datumTable with
-      | some d =>
-        { sr with datumParams := (d.towgs84.getD []).map ofRat, ellps := d.ellipse.toList,
-                  datumName := if d.datumName ≠ "" then d.datumName.toList else sr.datumCode }
-      | none => sr
-    else sr
-  let sr : SR α :=
-    if isNaN sr.a then
-      let e : EllDef := match List.lookup (String.ofList sr.ellps) ellipsoidTable with
-        | some e => e
-        | none => (List.lookup "WGS84" ellipsoidTable).getD ⟨0, 0, 0, ""⟩
-      { sr with a := ofRat0 e.a sr.a, b := ofRat0 e.b sr.b, rf := ofRat0 e.rf sr.rf, ellipseName := e.name.toList }
-    else sr
-  let sr : SR α :=
-    if !isNaN sr.rf && isNaN sr.b then { sr with b := mul (sub (ofRat 1) (div (ofRat 1) sr.rf)) sr.a } else sr
-  let sr : SR α :=
-    if eq sr.rf (ofRat 0) || lt (abs (sub sr.a sr.b)) (ofRat epslnQ) then { sr with sphere := true, b := sr.a } else sr
+/-! `DeriveConstants` before the datum object is attached, statement group by statement group -/
+
+/-- a known `DatumCode` brings its table entry -/
+def dcDatum (sr : SR α) : SR α :=
+  if sr.datumCode ≠ [] && sr.datumCode ≠ s "none" then
+    match List.lookup (String.ofList sr.datumCode) datumTable with
+    | some d =>
+      { sr with datumParams := (d.towgs84.getD []).map ofRat, ellps := d.ellipse.toList,
+                datumName := if d.datumName ≠ "" then d.datumName.toList else sr.datumCode }
+    | none => sr
+  else sr
+
+/-- no semi-major axis: take the named ellipsoid (default WGS84) -/
+def dcEllps (sr : SR α) : SR α :=
+  if isNaN sr.a then
+    let e : EllDef := match List.lookup (String.ofList sr.ellps) ellipsoidTable with
+      | some e => e
+      | none => (List.lookup "WGS84" ellipsoidTable).getD ⟨0, 0, 0, ""⟩
+    { sr with a := ofRat0 e.a sr.a, b := ofRat0 e.b sr.b, rf := ofRat0 e.rf sr.rf, ellipseName := e.name.toList }
+  else sr
+
+def dcB (sr : SR α) : SR α :=
+  if !isNaN sr.rf && isNaN sr.b then { sr with b := mul (sub (ofRat 1) (div (ofRat 1) sr.rf)) sr.a } else sr
+
+def dcSphere (sr : SR α) : SR α :=
+  if eq sr.rf (ofRat 0) || lt (abs (sub sr.a sr.b)) (ofRat epslnQ) then { sr with sphere := true, b := sr.a } else sr
+
+def dcSquares (sr : SR α) : SR α :=
   let a2 := mul sr.a sr.a
   let b2 := mul sr.b sr.b
   let es := div (sub a2 b2) a2
-  let sr : SR α := { sr with a2 := a2, b2 := b2, es := es, e := sqrt es }
-  let sr : SR α :=
-    if sr.ra then
-      let a := mul sr.a (sub (ofRat 1) (mul sr.es (add (ofRat sixthQ) (mul sr.es (add (ofRat ra4Q) (mul sr.es (ofRat ra6Q)))))))
-      { sr with a := a, a2 := mul a a, b2 := mul sr.b sr.b, es := ofRat 0 }
-    else sr
-  let sr : SR α := { sr with ep2 := div (sub sr.a2 sr.b2) sr.b2 }
-  let sr : SR α := if isNaN sr.k0 then { sr with k0 := ofRat 1 } else sr
-  if sr.axis = [] then { sr with axis := s "enu" } else sr
+  { sr with a2 := a2, b2 := b2, es := es, e := sqrt es }
+
+def dcRa (sr : SR α) : SR α :=
+  if sr.ra then
+    let a := mul sr.a (sub (ofRat 1) (mul sr.es (add (ofRat sixthQ) (mul sr.es (add (ofRat ra4Q) (mul sr.es (ofRat ra6Q)))))))
+    { sr with a := a, a2 := mul a a, b2 := mul sr.b sr.b, es := ofRat 0 }
+  else sr
+
+def dcEp2 (sr : SR α) : SR α := { sr with ep2 := div (sub sr.a2 sr.b2) sr.b2 }
+def dcK0 (sr : SR α) : SR α := if isNaN sr.k0 then { sr with k0 := ofRat 1 } else sr
+def dcAxis (sr : SR α) : SR α := if sr.axis = [] then { sr with axis := s "enu" } else sr
+
+/-- everything of `DeriveConstants` before the datum object is attached -/
+def deriveCore (sr : SR α) : SR α :=
+  dcAxis (dcK0 (dcEp2 (dcRa (dcSquares (dcSphere (dcB (dcEllps (dcDatum sr))))))))
 
 /-- `if json.datum == nil { json.datum = json.getDatum() }` -/
 def attachDatum (sr : SR α) : Except Err (SR α) :=
